@@ -176,15 +176,4 @@ def saveHtml (render : Option Str → Bool → FsRendered) (file fileAbs : Str) 
     if fs'.isDir (pathResolve fileAbs) || fs'.fileOnPath (pathResolve fileAbs).dropLast then (fs', .error .exception)
     else (fs'.write (pathResolve fileAbs) (utf8 rendered.html), .ok file)
 
-/-- the three classes that offer `save_html` -/
-inductive Receiver
-  | document | tag | tagList
-  deriving DecidableEq, Repr
-
-/-- `Tag.save_html` and `TagList.save_html` are `HTMLDocument(self).save_html(file, libdir=libdir,
-    include_version=include_version)`; `render` is the render method of that (wrapping) document -/
-def saveHtmlOn (_recv : Receiver) (render : Option Str → Bool → FsRendered) (file fileAbs : Str)
-    (libdir : Option Str) (iv : Bool) (fs : FS) : FS × Except Err Str :=
-  saveHtml render file fileAbs libdir iv fs
-
 end HtmlVerif
